@@ -354,13 +354,16 @@ Proof.
   rewrite IH; auto. intros ?; apply H; now right.
 Qed.
 
+Lemma firstn_len_app {A} (pre l : list A) : firstn (length pre) (pre ++ l) = pre.
+Proof. induction pre; cbn; congruence. Qed.
+Lemma skipn_len_app {A} (pre : list A) x post : skipn (S (length pre)) (pre ++ x :: post) = post.
+Proof. induction pre; cbn in *; auto. Qed.
+
 Theorem outputs_in_place pre post x new :
   ~ In x pre -> rename_outputs (pre ++ x :: post) x new = pre ++ new ++ post.
 Proof.
   intros H. unfold rename_outputs. rewrite index_of_app by auto.
-  rewrite firstn_app, firstn_all, Nat.sub_diag. cbn [firstn]. rewrite app_nil_r.
-  replace (S (length pre)) with (length pre + 1) by lia.
-  rewrite <- skipn_skipn. rewrite skipn_app, skipn_all, Nat.sub_diag. cbn. reflexivity.
+  now rewrite firstn_len_app, skipn_len_app.
 Qed.
 
 Theorem outputs_untouched outs x new : ~ In x outs -> rename_outputs outs x new = outs.
@@ -440,7 +443,7 @@ Section Residual.
 
   Theorem residual_elementwise e : in_range e -> evalE (subst e) = evalU e.
   Proof.
-    induction e; cbn; intros H; auto.
+    induction e; cbn [subst evalE evalU in_range]; intros H; auto.
     - destruct H as (Hi & Hj).
       destruct (layout (names v) (fst (dims v)) (snd (dims v)) i j (names_len v) Hi Hj) as (-> & _).
       symmetry. now apply renaming.
@@ -449,3 +452,55 @@ Section Residual.
     - now rewrite IHe.
   Qed.
 End Residual.
+
+(* ======================================================================================== *)
+(* 7. expand_var: what one expanded variable consists of; when it cannot fail                 *)
+Lemma expand_var_spec v ex :
+  expand_var v = Some ex ->
+  let idxs := ndindex (iter_dims (ushape v)) in
+  opt_all (map (scalar_name (uname v) (ushape v)) idxs) = Some (map fst ex)
+  /\ map snd ex = map (fun idx => map (fun a => sel_attr a idx) (uattrs v)) idxs
+  /\ length ex = product (iter_dims (ushape v)).
+Proof.
+  unfold expand_var. intros H. cbv zeta in *. set (idxs := ndindex (iter_dims (ushape v))) in *.
+  destruct (opt_all (map (scalar_name (uname v) (ushape v)) idxs)) as [names|] eqn:E; [|discriminate].
+  destruct (forallb _ _); [|discriminate]. inversion H; subst ex; clear H.
+  assert (L : length names = length idxs).
+  { apply opt_all_some in E. apply (f_equal (@length _)) in E. now rewrite !map_length in E. }
+  assert (C : forall (A B : Type) (l1 : list A) (l2 : list B), length l1 = length l2 ->
+              map fst (combine l1 l2) = l1 /\ map snd (combine l1 l2) = l2).
+  { intros A B l1. induction l1 as [|a l1 IH]; intros [|b l2] HL; cbn in *; try discriminate; auto.
+    destruct (IH l2) as (-> & ->); auto. }
+  destruct (C _ _ names (map (fun idx => map (fun a => sel_attr a idx) (uattrs v)) idxs)) as (-> & ->).
+  - now rewrite map_length.
+  - repeat split; auto. rewrite combine_length, map_length, L, Nat.min_id. apply ndindex_length.
+Qed.
+
+(* attributes the expansion is defined on: scalars and lists of the full rank of the index *)
+Definition attr_full (dims : list nat) (a : attr) : Prop :=
+  match a with
+  | AtScalar _ => True
+  | AtList l => shaped dims l
+  | AtMat _ _ _ _ => False
+  end.
+
+Lemma sel_full_ok dims a idx : attr_full dims a -> In idx (ndindex dims) -> sel_ok (sel_attr a idx) = true.
+Proof.
+  destruct a as [x|l|]; cbn [attr_full sel_attr]; intros F Hin; [reflexivity| |contradiction].
+  apply attributes_list in F.
+  apply (in_map (sel_list l)) in Hin. rewrite F in Hin. apply in_map_iff in Hin as (y & <- & _). reflexivity.
+Qed.
+
+Theorem expand_total v names :
+  opt_all (map (scalar_name (uname v) (ushape v)) (ndindex (iter_dims (ushape v)))) = Some names ->
+  Forall (attr_full (iter_dims (ushape v))) (uattrs v) ->
+  exists ex, expand_var v = Some ex.
+Proof.
+  intros HN HF. unfold expand_var. rewrite HN.
+  assert (E : forallb (forallb sel_ok)
+                (map (fun idx => map (fun a => sel_attr a idx) (uattrs v)) (ndindex (iter_dims (ushape v)))) = true).
+  { apply forallb_forall. intros x Hx. apply in_map_iff in Hx as (idx & <- & Hidx).
+    apply forallb_forall. intros y Hy. apply in_map_iff in Hy as (a & <- & Ha).
+    rewrite Forall_forall in HF. eapply sel_full_ok; eauto. }
+  rewrite E. eauto.
+Qed.
